@@ -271,7 +271,9 @@ func errText(err error) string {
 	if err == nil {
 		return "<nil>"
 	}
-	return "err:" + maskAddrs(err.Error())
+	// not masked: an error text that differs from run to run (an address, a
+	// counter, a time) means the result is not a function of the arguments
+	return "err:" + err.Error()
 }
 
 // canonFull is the full canonical form of an expression: structure plus the
